@@ -25,15 +25,17 @@ def module_of(path):
 
 def main():
     sid = sys.argv[1]
-    out = "/tmp/seedout/%s" % sid
+    rnd = os.environ.get("SEED_ROUND", "1")
+    suffix = "" if rnd == "1" else chr(ord("a") + int(rnd) - 1)   # round 2 -> "b"
+    out = ("/tmp/seedout/%s" if rnd == "1" else "/tmp/seedout" + rnd + "/%s") % sid
     meta = json.load(open(out + "/meta.json"))
     prop = meta.get("property", sid[:3])
     checks = sys.argv[2:] or [prop]
-    agent_wt = "/tmp/seed-%s" % sid
+    agent_wt = ("/tmp/seed-%s" if rnd == "1" else "/tmp/seed" + rnd + "-%s") % sid
     wt = "/tmp/sv-%s" % sid
     subprocess.run(["git", "-C", "/repo", "worktree", "remove", "--force", wt], capture_output=True)
     subprocess.run(["git", "-C", "/repo", "worktree", "add", "--detach", "-f", wt, "HEAD"], check=True, capture_output=True)
-    report = dict(id=sid, property=prop, summary=meta.get("summary"), needs_to_manifest=meta.get("needs_to_manifest"))
+    report = dict(id=sid + suffix, property=prop, summary=meta.get("summary"), needs_to_manifest=meta.get("needs_to_manifest"))
     try:
         # demo files = untracked files of the agent's worktree
         rc, o = sh("git status --porcelain --untracked-files=all", agent_wt)
@@ -109,7 +111,7 @@ def main():
         subprocess.run(["git", "-C", "/repo", "checkout", "--", "."], check=True)
     report["checks"] = verdicts
     # ---- keep it
-    dst = os.path.join(ROOT, "seeded", sid)
+    dst = os.path.join(ROOT, "seeded", sid + suffix)
     os.makedirs(dst, exist_ok=True)
     shutil.copyfile(out + "/patch.diff", dst + "/patch.diff")
     for f in os.listdir(out):
